@@ -845,7 +845,20 @@ def _id(I, args, kwargs):
 
 @lib("builtins.round")
 def _round(I, args, kwargs):
-    raise Undecided("round")
+    """round(x) with one argument: nearest integer, ties to the even one (Python 3)"""
+    if len(args) != 1 or kwargs:
+        raise Undecided("round with ndigits")
+    x = args[0]
+    if is_intlike(x):
+        return x
+    if not is_sym(x):
+        return round(x)
+    xr = ops.as_real(x)
+    q = ops.floor_real(I.ctx, xr)
+    f = xr - ops.as_real(q)
+    q3 = to_z3(q)
+    USED.add("round(x): nearest integer, ties to even")
+    return simp(z3.If(f < 0.5, q3, z3.If(f > 0.5, q3 + 1, z3.If(q3 % 2 == 0, q3, q3 + 1))))
 
 
 @lib("builtins.object.__new__", "object.__new__")
@@ -1575,3 +1588,12 @@ def _it_chain(I, args, kwargs):
     for a in args:
         out.extend(I.iter_concrete(a))
     return SList(out, "list")
+
+
+@lib("sklearn.utils.check_random_state", "sklearn.utils.validation.check_random_state")
+def sk_check_random_state(I, args, kwargs):
+    """a numpy RandomState derived from the seed: an opaque, STATEFUL object (every draw advances it) -- draws are not modelled"""
+    USED.add("sklearn check_random_state(seed): opaque stateful generator, draws not modelled")
+    o = Opaque("RandomState", prov=("check_random_state", args[0] if args else None))
+    o.is_rng = True
+    return o
